@@ -174,7 +174,7 @@ def execute(sc):
                        (r[0] == 'GE' and r[1] == 'UnsupportedHash' and v.unsupported) or \
                        (r[0] == 'OS' and r[1] in v.oserr):
                         ok = True
-                if v.kind == 'LOOP' and not ok and r[0] == 'OS' and r[1] in v.oserr:
+                if v.kind == 'LOOP' and not ok and r[0] == 'OS' and (r[1] in v.oserr or (r[1] == 'ENOTDIR' and getattr(v, 'enotdir', False))):
                     ok = True
                 if not ok:
                     violations.append(viol('keepgoing.structural-not-raised',
